@@ -24,11 +24,36 @@ def featset(d):
 # ---------------------------------------------------------------------------------------
 # building the real thing
 # ---------------------------------------------------------------------------------------
+def _refused_adds(arb, cfg, k):
+    """add() calls the arbiter must refuse, made BETWEEN accepted ones: a refused initiator must not take part
+    in arbitration afterwards (it would show as an extra participant: wrong owner, wrong successor)."""
+    bad = [dict(addr_width=cfg["aw"] + 1, data_width=cfg["dw"], granularity=cfg["gran"]),
+           dict(addr_width=cfg["aw"], data_width=cfg["dw"] * 2 if cfg["dw"] < 64 else cfg["dw"] // 2,
+                granularity=min(cfg["gran"], cfg["dw"] // 2 if cfg["dw"] >= 64 else cfg["gran"]))]
+    if cfg["gran"] > 8:
+        bad.append(dict(addr_width=cfg["aw"], data_width=cfg["dw"], granularity=cfg["gran"] // 2))
+    if cfg["feat"].get("err") or cfg["feat"].get("rty"):
+        bad.append(dict(addr_width=cfg["aw"], data_width=cfg["dw"], granularity=cfg["gran"]))      # lacks err/rty
+    for n, kw in enumerate(bad):
+        try:
+            ib = wishbone.Interface(path=(f"refused{k}_{n}",), **kw)
+        except (ValueError, TypeError):
+            continue
+        try:
+            arb.add(ib)
+        except ValueError:
+            continue
+        raise common.Violation("arbiter-accepted-incompatible",
+                               f"wishbone.Arbiter.add() accepted an incompatible initiator {kw} on {cfg['aw']}/{cfg['dw']}/{cfg['gran']}")
+
+
 def build(cfg):
     arb = wishbone.Arbiter(addr_width=cfg["aw"], data_width=cfg["dw"], granularity=cfg["gran"],
                            features=featset(cfg["feat"]))
     intrs = []
     for k, ic in enumerate(cfg["intr"]):
+        if (k + cfg["aw"] + len(cfg["intr"])) % 2 == 0:
+            _refused_adds(arb, cfg, k)
         ib = wishbone.Interface(addr_width=cfg["aw"], data_width=cfg["dw"],
                                 granularity=cfg["gran"] * ic["ratio"],
                                 features=featset(ic["feat"]), path=(f"intr{k}",))
@@ -129,7 +154,10 @@ def random_schedule(r, cfg, length):
 
 def record(job):
     cfg, steps = job
-    dut, ins, outs = build(cfg)
+    try:
+        dut, ins, outs = build(cfg)
+    except common.Violation as v:
+        return {"cfg": cfg, "steps": [], "stim": [], "violation": [v.key, v.what]}
     log = simulate(dut, ins, outs, iter(steps).__next__ if False else _seq(steps))
     return {"cfg": cfg, "steps": [to_step(cfg, i, o) for i, o in log], "stim": list(steps)}
 
@@ -493,6 +521,10 @@ def main(prop, tier):
         cfg = random_cfg(r)
         jobs.append((cfg, list(random_schedule(r, cfg, length))))
     traces = pmap(record, jobs)
+    for tr in traces:
+        if tr.get("violation"):
+            run.report(tr["violation"][0], tr["violation"][1], {"kind": "arbiter-build", "cfg": tr["cfg"]})
+    traces = [tr for tr in traces if not tr.get("violation")]
     fails = tracecheck.validate("WbArbiter_Trace", "Arb", traces, run, "random traces (leg C)")
     report_failures(run, traces, fails, "random")
     for tr in traces:
